@@ -14,6 +14,12 @@ Real code (public entry points, over harness.fakecourier with no faults, real se
   interleaved + `ack`: RPC latency as an environment choice: the REPLY of the first `enqueue_from_iterator` kick-off
                        (the worker is already pulling the stage input) is held back `ack` ms while the other workers
                        drain the input and finish; `lat` = [[ms, k], ..] holds back the reply of every k-th other call
+  kind 'stage'       : (package C16S) ONE interleaved stage step by step: the real coroutines
+                       `AsyncIteratorQueue.async_enqueue_from_iterator(CourierClient.async_iter(..))`, real worker / master
+                       CourierServer handlers, RemoteIteratorQueue, producer and consumer threads over the fake courier in
+                       manual mode under the deterministic scheduler + deterministic event loop; the executed operations are
+                       projected onto the alphabet of the `Stage` LTS and replayed by the Lean driver (model "stage", `stepT`):
+                       harness/lib_c16_stage.py
 Model: lean/MlModel/Model/Sched.lean (`IT` with the all-ok environment, `trMergeStates`, `chMergeStates`,
 `stageReturned`) + the queue LTS of C04; theorems lean/MlModel/Properties/C16.lean.
 
@@ -25,6 +31,7 @@ import queue
 
 from harness import lib_sched as L
 from harness import lib_sched_ext as X
+from harness import lib_c16_stage as S
 from harness.core import err_kind
 
 PID = 'C16'
@@ -35,7 +42,14 @@ TRUSTED = [
     'does itself (cloudpickle of the traced pipeline)',
     'interleaved stages: the model is the shared-queue LTS of C04 (workers = consumers) plus the merge lemma; the '
     'remote plumbing (RemoteIteratorQueue -> master CourierServer -> IteratorQueue.get_batch, AsyncIteratorQueue fed by '
-    'one coroutine per worker on one event loop) is exercised by the check but not modelled step by step',
+    'one coroutine per worker on one event loop) is exercised by the check but not modelled step by step by the kinds '
+    "'interleaved'; kind 'stage' ties ONE stage step by step to Model/Stage.lean (`stepT`)",
+    "kind 'stage': the harness plays the main loop of iterate_with_worker_pool (hands the coroutines to the event loop, no "
+    'worker-pool acquisition), the servers run their handlers only (no housekeeping thread), heartbeats are answered inline; '
+    'yield points = every lock / condition / queue-buffer / executor operation of iter_utils, courier_utils, courier_server, '
+    'every request delivery and reply delivery of an RPC, every idle or spinning turn of the event loop; the events '
+    '`_start_enqueue` / `_stop_enqueue` are observed by wrapping these private methods for the duration of a run; '
+    'translate/stage_turn.py (ast) is trusted to count the suspension points of async_iter / async_enqueue_from_iterator',
 ]
 ASSUMPTIONS = ['row-wise pipelines (apply / chained apply / aggregate), aggregates are mergeable metrics whose '
                'result does not depend on the order of the rows']
@@ -73,6 +87,8 @@ def gen_cases(ctx):
       ctx.count('ack_latency_ms', c['ack'])
     if c.get('lat'):
       ctx.count('reply_latency', 'yes')
+    if c['kind'] == 'stage':
+      ctx.count('stage_sched', c['sched']['kind'] + ('/directed' if c['sched'].get('first') else ''))
     if c['kind'] == 'strict':
       ctx.count('strict_variant', c['variant'] + ('/oneshot' if c.get('oneshot') else ''))
     yield c
@@ -117,6 +133,9 @@ def _gen_cases(ctx):
     yield dict(kind='interleaved', workers=rng.randrange(2, 4), n=rng.randrange(2, 13),
                mode=rng.choice(['fused', 'staged', 'noagg']), buffer=rng.choice([0, 1, 2, 5]),
                lat=[[rng.choice([1, 3, 8]), rng.randrange(2, 6)] for _ in range(rng.choice([1, 2]))])
+  # one interleaved stage step by step against the Stage LTS (package C16S)
+  for c in S.gen_cases(rng, quick):
+    yield c
   # concurrent evaluation on one server: the lazy-function cache is shared by all handler threads (finding C16-F-lru)
   for threads, iters in ([(2, 1500), (4, 1500), (3, 3000)] if quick else [(t, i) for t in (2, 3, 4, 8) for i in (1000, 3000, 10000)]):
     yield dict(kind='cache', threads=threads, iters=iters)
@@ -141,6 +160,10 @@ def run_impl(case):
     return run_strict(case)
   if kind == 'cache':
     return run_cache(case)
+  if kind == 'stage':
+    obs = S.run_stage(case)
+    obs.pop('choices', None)      # the schedule is reproduced from the case's seed
+    return obs
   raise ValueError(kind)
 
 
@@ -356,6 +379,8 @@ def stage_totals(case):
 
 def oracle(case, obs):
   kind = case['kind']
+  if kind == 'stage':
+    return S.oracle(case, obs)
   if kind == 'cache':
     if obs['outcome'] != 'returned':
       return (f"evaluating cached lazy functions on {case['threads']} handler threads: {obs['errors']} threads died with "
@@ -412,6 +437,8 @@ def oracle(case, obs):
 
 def model_requests_obs(case, obs):
   kind = case['kind']
+  if kind == 'stage':
+    return [S.model_request(case, obs)]
   if kind == 'strict':
     if case['variant'] in ('chained2', 'chained3') or case.get('oneshot'):
       ns_ = {'chained2': 2, 'chained3': 3}.get(case['variant'], 1)
@@ -432,6 +459,10 @@ def model_obs(case, resps):
   if not resps:
     return None
   r = resps[0]
+  if case['kind'] == 'stage':
+    for p in r.get('points', []):
+      _ARMS['stage:' + p] += 1
+    return dict(kind='stage', case=case, r=r)
   if case['kind'] == 'strict' and ('totals' in r or 'err' in r):
     if 'err' in r:
       return dict(kind='strict', outcome='ValueError', total=None, totals=None)
@@ -447,6 +478,8 @@ def model_obs(case, resps):
 def compare(obs, mobs):
   if mobs is None:
     return None
+  if mobs['kind'] == 'stage':
+    return S.compare(mobs['case'], obs, mobs['r'])
   if mobs['kind'] == 'strict':
     a = (obs['outcome'], obs['total'])
     b = (mobs['outcome'], mobs['total'])
@@ -469,13 +502,17 @@ def compare(obs, mobs):
 
 _ARMS = collections.Counter()
 REQUIRED_ARMS = ['cache:concurrent-evaluation-beyond-capacity', 'interleaved:kickoff-reply-late(2+ workers)', 'interleaved:reply-latency', 'sharded:two-aggregating-stages',
-                 'sharded:three-aggregating-stages', 'strict:multi-stage-oneshot-merged', 'strict:multi-stage-oneshot-rejected']
+                 'sharded:three-aggregating-stages', 'strict:multi-stage-oneshot-merged', 'strict:multi-stage-oneshot-rejected',
+                 'stage:run-completed'] + ['stage:' + p for p in S.REQUIRED_POINTS]
 
 
 def _cover(case, obs):
   kind = case['kind']
   if oracle(case, obs) is not None:
     _ARMS['(oracle failed)'] += 1      # the verdict is a VIOLATION; coverage does not decide this run
+  if kind == 'stage':
+    _ARMS['stage:run-completed' if obs['outcome'] == 'done' else 'stage:run-' + str(obs['outcome'])] += 1
+    return
   if kind == 'cache' and case['threads'] >= 2 and obs['evaluations'] > obs['maxsize']:
     _ARMS['cache:concurrent-evaluation-beyond-capacity'] += 1
   if kind == 'interleaved' and obs.get('kick_delayed') and case.get('ack') and case['workers'] >= 2:
@@ -507,7 +544,22 @@ def nontrivial(case, obs):
     return obs['evaluations'] > obs['maxsize'] and case['threads'] >= 2
   if case['kind'] == 'strict':
     return case['states'] >= 2 and case['strict'] >= 1
+  if case['kind'] == 'stage':
+    return case['workers'] > 1 and case['n'] >= 2 and obs['outcome'] == 'done'
   return (case['workers'] > 1 or case.get('shards', 1) > 1) and case['n'] >= 2
+
+
+def neighbours(case, rng):
+  """failing-input search around a stage case whose tie broke: the same configuration (and larger ones) under other
+  schedules, among them the directed ones that let the worker threads run between kick-off and registration"""
+  if case.get('kind') != 'stage':
+    return
+  for k in range(400):
+    first = [None, ['rpc', 'wjob'], ['producer', 'rpc', 'wjob'], ['rpc', 'wjob', 'pool', 'consumer']][k % 4]
+    sch = dict(kind=('random', 'pct')[k % 2], seed=rng.randrange(10**9), spin_p=rng.choice([0.05, 0.15, 0.4]))
+    if first:
+      sch.update(first=first, first_p=0.9)
+    yield dict(kind='stage', n=max(2, case['n']) + k % 3, workers=max(2, case['workers']), buffer=case.get('buffer', 0), sched=sch)
 
 
 def finding(case, what):
